@@ -1,3 +1,4 @@
+import TemplVerif.Generated.Skeletons
 import TemplVerif.Model.Url
 import TemplVerif.Proofs.Url
 /-
@@ -46,5 +47,15 @@ example : Whatwg.scheme [106, 97, 9, 118, 97, 115, 99, 114, 105, 112, 116, 58, 1
   decide
 
 example : Url.sanitize [72, 84, 84, 80, 58, 47, 47, 120] = [72, 84, 84, 80, 58, 47, 47, 120] := by decide
+
+-- BEGIN transcription pins (written by tools/mkpins.py)
+/-- T1, transcription pins: the control structure and calls (extract/skeleton.go) of the functions whose models
+    were written by hand are the ones the models were transcribed from:
+      url.go URL
+    A change of what one of them calls or how it branches breaks this theorem; the check then searches for a
+    failing input and reports either that or `no-failing-input-found`. -/
+theorem C04_transcription_pinned :
+    Generated.skel_url_URL = 12873288404165402316 := by decide
+-- END transcription pins
 
 end TemplVerif.Props.C04
